@@ -7,6 +7,10 @@ use crate::grammar;
 use crate::json::J;
 
 pub mod c01;
+pub mod c08;
+pub mod unicodeprops;
+pub mod metaprops;
+pub mod metaprops2;
 pub mod refcheck;
 pub mod refprops;
 
@@ -59,11 +63,27 @@ pub trait Monitor {
     fn shrink_text(&self) -> bool {
         false
     }
+    /// narrow a failing case before minimisation (e.g. to the one character that failed)
+    fn focus(&self, c: &Case, _f: &Finding) -> Case {
+        c.clone()
+    }
+    /// attach derived data (e.g. the metamorphic twin) to a minimised witness
+    fn annotate(&self, _c: &mut Case) {}
 }
 
 pub fn monitor(id: &str) -> Option<Box<dyn Monitor>> {
     Some(match id {
         "C01" => Box::new(c01::C01),
+        "C08" => Box::new(c08::C08),
+        "C04" => Box::new(metaprops::C04),
+        "C13" => Box::new(metaprops::C13),
+        "C15" => Box::new(metaprops::C15),
+        "C16" => Box::new(metaprops::C16),
+        "C14" => Box::new(metaprops2::C14),
+        "C17" => Box::new(metaprops2::C17),
+        "C20" => Box::new(metaprops2::C20),
+        "C09" => Box::new(unicodeprops::C09),
+        "C10" => Box::new(unicodeprops::C10),
         "C02" => Box::new(refprops::C02),
         "C03" => Box::new(refprops::C03),
         "C11" => Box::new(refprops::C11),
